@@ -52,7 +52,7 @@ func (p *Prog) d(v ssa.Value, depth int, seen map[ssa.Value]bool) string {
 	case *ssa.Alloc:
 		// a spilled parameter (address taken): the variable is the parameter
 		if st := p.singleStore(x); st != nil {
-			if prm, ok := st.Val.(*ssa.Parameter); ok {
+			if prm, ok := st.Val.(*ssa.Parameter); ok && x.Comment == prm.Name() {
 				return "&" + prm.Name()
 			}
 		}
